@@ -126,4 +126,4 @@ replace github.com/takama/daemon v0.12.0 => github.com/codenotary/daemon v0.0.0-
 
 replace github.com/spf13/afero => github.com/spf13/afero v1.5.1
 
-replace github.com/codenotary/immudb => /tmp/mut/m-c19-a
+replace github.com/codenotary/immudb => /repo
